@@ -37,7 +37,10 @@ def eval_case(case):
   model = case['model']
   grav = case['grav']
   acts = case.get('acts') or motors(model)
-  xml = render.render(model, gravity=tuple(grav), dt=DT, actuators=acts, custom={'matrix_inv_iterations': 0})
+  custom = {'matrix_inv_iterations': 0}
+  if case.get('init_qpos'):
+    custom['init_qpos'] = ' '.join(repr(float(v)) for v in case['init_qpos'])
+  xml = render.render(model, gravity=tuple(grav), dt=DT, actuators=acts, custom=custom)
   q, qd = (np.array(case['q']), np.array(case['qd'])) if 'q' in case else c01.qvec(model, case['pose'])
   tau = np.array(case['tau'])
   sys = mjcf.loads(xml)
@@ -86,6 +89,30 @@ def eval_case(case):
   mujoco.mj_step(mj, d)
   ref.update(q4=d.qpos.tolist(), qd4=d.qvel.tolist())
   return {'xml': xml, 'q': q.tolist(), 'qd': qd.tolist(), 'tau': tau.tolist(), 'brax': o, 'mj': ref}
+
+
+def session_case(case):
+  """Several systems evaluated one after the other in ONE process (hidden state carried between systems)."""
+  return [eval_case(c) for c in case['members']]
+
+
+def retopologise(model):
+  """A model with the same links, hence the same link-type string, but another parent topology (chain <-> star), or None."""
+  links = model['links']
+  for k in range(len(links) - 1, min(len(links), 2) - 1, -1)[:1]:     # only the LAST link: depth-first body order is kept
+    l = links[k]                                                        # (0-based k; candidates: the root path of link k)
+    if k < 2 or l['root'] == 'free' or not l['parent']:
+      continue
+    path, p = [], k          # root path of the previous link (1-based ids)
+    while p:
+      path.append(p)
+      p = links[p - 1]['parent']
+    alt = [p for p in path if p != l['parent']]
+    if alt:
+      m2 = json.loads(json.dumps(model))
+      m2['links'][k]['parent'] = alt[-1] if l['parent'] == k else k
+      return m2
+  return None
 
 
 def mx(a, b):
@@ -276,10 +303,39 @@ def run(ctx):
     if not acts:
       c.pop('ctrl')
     rel.append(c)
+  # brax's own init_qpos option (a custom numeric the reference compiler ignores) on half of the cases: joint springs
+  # still rest at q = 0 whatever the nominal start pose is
+  for c in rel:
+    if rr.random() < 0.5:
+      nq = render.structure(c['model'])[0]
+      iq, k = [rr.uniform(-0.8, 0.8) for _ in range(nq)], 0
+      for l in c['model']['links']:
+        if l['root'] == 'free':
+          iq[k + 3:k + 7] = [1.0, 0.0, 0.0, 0.0]
+          k += 7
+        else:
+          k += len(l['stack'])
+      c['init_qpos'] = iq
   for case, r in par.run('harness.drivers.c02', 'eval_case', rel):
     ctx.case(key=(r['xml'], tuple(r['q'])), nontrivial=True)
     judge_rel(ctx, case, r)
   ctx.extra['relational_cases'] = len(rel)
+  # sessions: a model, its re-parented twin (same link-type string, other topology), the model again -- in one process
+  sessions = []
+  for c in rel:
+    m2 = retopologise(c['model'])
+    if m2 is None or c.get('acts'):
+      continue
+    twin = {k: v for k, v in c.items() if k not in ('model', 'init_qpos')}
+    twin['model'] = m2
+    sessions.append({'members': [c, twin, c]})
+    if len(sessions) >= (4 if q else 60):
+      break
+  for sess, rs in par.run('harness.drivers.c02', 'session_case', sessions, chunksize=1):
+    for case, r in zip(sess['members'], rs):
+      ctx.case(key=('session', r['xml'], tuple(r['q'])), nontrivial=True)
+      judge_rel(ctx, case, r)
+  ctx.extra['sessions_same_types_other_topology'] = len(sessions)
   ctx.exhaustive = False
 
 
